@@ -32,6 +32,8 @@ def build(ctx: Ctx, n_des: int):
         if rng.random() < 0.4:
             cond = f"[{rng.choice('123')}]" + (f"[{keys[0]}]" if len(keys) == 1 else f"({cond})")
         inp = None if rng.random() < 0.15 else ("" if rng.random() < 0.05 else f"in{k}")
+        if inp and rng.random() < 0.3:  # inputs are checked as entered: padding, blanks only, upper case, inner blanks are part of the text
+            inp = rng.choice([f" in{k}", f"in{k} ", f"\tin{k}\n", " " * (k + 1), f"IN{k}", f"in {k}", f"in{k}\u00a0"])
         return {"t": "free", "disc": f"ft{k}", "expr": {"parts": [[rng.choice(["X", "MUSS"]), rng.choice(["X", "Muss"]), cond]]}, "input": inp, "vtype": "TEXT"}
 
     segs, left = [], n_des
@@ -187,10 +189,10 @@ def run(ctx: Ctx) -> None:
                 r = by.get(d["disc"])
                 if r is None:
                     continue
-                seen = re.findall(r"saw:(.*?)#", r["fc_msg"] or "")
+                seen = re.findall(r"saw:(.*?)#", r["fc_msg"] or "", re.S)
                 own = str(d["input"])
                 if any(x != own for x in seen):
-                    bad = ("a format constraint of a data element was evaluated against another element's input", {"element": d["disc"], "own_input": d["input"], "saw": seen})
+                    bad = ("a format constraint of a data element was not evaluated against that element's own entered input (it saw another element's, or an altered text)", {"element": d["disc"], "own_input": d["input"], "saw": seen})
                 elif r != alone[d["disc"]]:
                     bad = ("the result of a data element inside the tree differs from validating it on its own", {"element": d["disc"], "in_tree": r, "alone": alone[d["disc"]]})
                 if bad:
